@@ -1,15 +1,89 @@
-//! Thin wrapper over luamon (stub until the interpreter is linked).
+//! Wrapper over luamon (the instrumented Lua 5.3-subset runtime).
+pub use luamon::{Census, Counters, ErrClass, Event, LoadClass, LoadError, Outcome};
+
+#[derive(Debug, Clone)]
+pub enum Loaded {
+    Ok(std::sync::Arc<luamon::Chunk>),
+    /// the chunk is not a loadable Lua chunk
+    Error { class: String, line: u32, msg: String },
+    /// a limit count falls in the grey zone: no load verdict
+    GreyZone(String),
+}
+
+pub fn load(lua: &str) -> Loaded {
+    match luamon::load(lua) {
+        Ok(c) => Loaded::Ok(std::sync::Arc::new(c)),
+        Err(e) => match e.class {
+            LoadClass::GreyZone { what, count } => Loaded::GreyZone(format!("{}={}", what, count)),
+            LoadClass::Syntax => Loaded::Error { class: "syntax".into(), line: e.line, msg: e.msg },
+            LoadClass::ReturnNotLast => Loaded::Error { class: "return-not-last".into(), line: e.line, msg: e.msg },
+            LoadClass::BreakOutsideLoop => Loaded::Error { class: "break-outside-loop".into(), line: e.line, msg: e.msg },
+            LoadClass::Goto => Loaded::Error { class: "goto".into(), line: e.line, msg: e.msg },
+            LoadClass::Limit { what, count } => Loaded::Error { class: format!("limit-{}", what), line: e.line, msg: format!("{} ({})", e.msg, count) },
+        },
+    }
+}
+
+pub fn run_opts(monitors: bool) -> luamon::Options {
+    luamon::Options { max_steps: 400_000, max_depth: 400, strict_arith: monitors, monitor_v: monitors, assert_adds_position: true, ..Default::default() }
+}
+
+pub fn run(chunk: &luamon::Chunk, monitors: bool) -> luamon::RunResult {
+    luamon::run(chunk, &run_opts(monitors))
+}
+
+pub fn class_name(c: &ErrClass) -> String {
+    match c {
+        ErrClass::AssertFailed => "assert-failed".into(),
+        ErrClass::Crash(m) => {
+            if m.starts_with("Reached unreachable code") {
+                "unreachable".into()
+            } else {
+                format!("crash:{}", m.chars().take(40).collect::<String>())
+            }
+        }
+        ErrClass::PreambleAssert(m) => format!("preamble-assert:{}", m.chars().filter(|c| !c.is_ascii_digit()).take(40).collect::<String>()),
+        ErrClass::Arith(t) => format!("arith-on-{}", t),
+        ErrClass::Call(t) => format!("call-{}", t),
+        ErrClass::Index(t) => format!("index-{}", t),
+        ErrClass::Concat(t) => format!("concat-{}", t),
+        ErrClass::Compare(a, b) => format!("compare-{}-{}", a, b),
+        ErrClass::DivZero => "div-zero".into(),
+        ErrClass::StackOverflow => "stack-overflow".into(),
+        ErrClass::ErrorCall(m) => format!("error-call:{}", m.chars().take(30).collect::<String>()),
+        ErrClass::Other(m) => format!("other:{}", m.chars().filter(|c| !c.is_ascii_digit()).take(40).collect::<String>()),
+    }
+}
+
 pub enum Simple {
     Prints(Vec<String>),
     Inconclusive(String),
     Failed(String),
 }
-pub fn run_simple(_lua: &str) -> Simple {
-    Simple::Inconclusive("luamon-not-linked".into())
+
+/// load + run without monitors; used where only the printed values matter
+pub fn run_simple(lua: &str) -> Simple {
+    match load(lua) {
+        Loaded::Ok(c) => {
+            let r = run(&c, false);
+            match r.outcome {
+                Outcome::Ok => Simple::Prints(r.prints),
+                Outcome::Budget(b) => Simple::Inconclusive(format!("budget-{}", b)),
+                Outcome::Error(e) => Simple::Failed(class_name(&e.class)),
+            }
+        }
+        Loaded::GreyZone(g) => Simple::Inconclusive(format!("grey-zone-{}", g)),
+        Loaded::Error { class, .. } => Simple::Failed(format!("load-{}", class)),
+    }
 }
 
-/// Lua 5.3 tostring of a float: "%.14g", plus ".0" when the result looks like an integer.
+/// Lua 5.3 tostring of a float (shared with the reference model)
 pub fn fmt_float(f: f64) -> String {
+    luamon::tostring_number_f64(f)
+}
+
+/// Own "%.14g" implementation kept as a cross-check of luamon's (selftest compares them).
+pub fn fmt_float_own(f: f64) -> String {
     if f.is_nan() {
         return if f.is_sign_negative() { "-nan".into() } else { "nan".into() };
     }
@@ -24,7 +98,6 @@ pub fn fmt_float(f: f64) -> String {
     }
 }
 
-/// C's "%.{prec}g" for finite values.
 pub fn fmt_g(f: f64, prec: usize) -> String {
     if f == 0.0 {
         return if f.is_sign_negative() { "-0".into() } else { "0".into() };
